@@ -285,7 +285,9 @@ func vec(err error) string {
 	add("conflict+type", func() bool { return state.IsConflictError(err, state.WithResourceType(res.TypeA)) })
 	add("conflict+ns", func() bool { return state.IsConflictError(err, state.WithResourceNamespace("n1")) })
 	add("conflict+othtype", func() bool { return state.IsConflictError(err, state.WithResourceType("zzz")) })
-	add("ctx", func() bool { return errors.Is(err, context.DeadlineExceeded) || errors.Is(err, context.Canceled) || strings.Contains(err.Error(), "DeadlineExceeded") || strings.Contains(err.Error(), "deadline") })
+	add("ctx", func() bool {
+		return errors.Is(err, context.DeadlineExceeded) || errors.Is(err, context.Canceled) || strings.Contains(err.Error(), "DeadlineExceeded") || strings.Contains(err.Error(), "deadline")
+	})
 
 	if len(parts) == 0 {
 		return "error(unclassified)"
